@@ -525,10 +525,25 @@ func runFed(cfg *runCfg, prop string) error {
 				// realised insertion points the executor spawned, and per static path how many steps hang there
 				stepsAt := map[string]int{}
 				nroot := 0
+				ndup := 0
 				if plans, perr := fed.Plan(q.Text); perr == nil && one.OpIndex < len(plans) {
+					// two steps at one insertion point that fetch the same selection from the same
+					// service: every parent object there is fetched for twice
+					seenStep := map[string]bool{}
 					var walkSteps func(st *gateway.QueryPlanStep)
 					walkSteps = func(st *gateway.QueryPlanStep) {
 						for _, t := range st.Then {
+							scratch := NewCoqFile("")
+							fr := []string{}
+							for _, fd := range t.FragmentDefinitions {
+								fr = append(fr, fd.Name+" on "+fd.TypeCondition+" "+scratch.Sels(fd.SelectionSet))
+							}
+							sort.Strings(fr)
+							key := strings.Join(t.InsertionPoint, "/") + "|" + locationOf(t.Queryer) + "|" + t.ParentType + "|" + scratch.Sels(t.SelectionSet) + "|" + strings.Join(fr, ";")
+							if seenStep[key] {
+								ndup++
+							}
+							seenStep[key] = true
 							if len(t.InsertionPoint) == 0 {
 								nroot++
 							} else {
@@ -547,7 +562,10 @@ func runFed(cfg *runCfg, prop string) error {
 				for _, k := range sortedKeysInt(stepsAt) {
 					sa = append(sa, fmt.Sprintf("(%s, %d)", c.S(k), stepsAt[k]))
 				}
-				oracle = fmt.Sprintf("c13_holds (%s) %d [%s] [%s] obs%d", single, nroot, strings.Join(sp, "; "), strings.Join(sa, "; "), id)
+				oracle = fmt.Sprintf("c13_holds (%s) %d [%s] [%s] obs%d && Nat.eqb %d 0", single, nroot, strings.Join(sp, "; "), strings.Join(sa, "; "), id, ndup)
+				if ndup > 0 {
+					doc.Dist["plan:duplicate-steps"]++
+				}
 			case "C17":
 				// the same operation in the document reduced to it and its fragments
 				red := q.OpTexts[one.OpIndex] + "\n" + strings.Join(q.OpFrags[one.OpIndex], "\n")
